@@ -2,6 +2,8 @@ package props
 
 import (
 	"fmt"
+	"runtime"
+	"runtime/debug"
 	"strings"
 	"sync/atomic"
 	"time"
@@ -131,7 +133,18 @@ func runDequeHistory(alpha []dqOp, seq []int) (key, what string, nontrivial bool
 				}
 			}
 		})
-		hist := dqHistoryString(alpha, seq[:step+1])
+		if pv == nil && !check {
+			if c := q.Count(); c == len(model) {
+				continue
+			}
+		}
+		hist := ""
+		if pv != nil || !check || gerr != werr || (werr == nil && got != want) || q.Count() != len(model) {
+			hist = dqHistoryString(alpha, seq[:step+1]) // only built when something is about to be reported
+			if len(hist) > 600 {
+				hist = hist[:250] + ",...," + hist[len(hist)-300:] + fmt.Sprintf(" (%d steps)", step+1)
+			}
+		}
 		if pv != nil {
 			return fmt.Sprintf("panic:%s:%s@%s", op.name, core.NormalizePanic(fmt.Sprint(pv)), where),
 				fmt.Sprintf("history [%s] panics at step %d (%s): %v", hist, step, op.name, pv), headRem && tailRem
@@ -185,7 +198,9 @@ type dqHang struct {
 	seq   []int
 }
 
-func (d dqHang) String() string { return "history [" + dqHistoryString(d.alpha, d.seq) + "] (some prefix of it)" }
+func (d dqHang) String() string {
+	return "history [" + dqHistoryString(d.alpha, d.seq) + "] (some prefix of it)"
+}
 
 func init() {
 	core.Register(&core.Check{
@@ -193,7 +208,7 @@ func init() {
 		Meta: func(c *core.Ctx) core.Meta {
 			return core.Meta{
 				Level: "exploration",
-				Rule: "bounded-exhaustive: every operation history of exactly the stated length (all shorter histories are prefixes and are checked step by step) over the 15-letter full alphabet and the 6-letter core alphabet, plus PRNG histories of length 200; " +
+				Rule: "bounded-exhaustive: every operation history of exactly the stated length (all shorter histories are prefixes and are checked step by step) over the 15-letter full alphabet and the 6-letter core alphabet, plus PRNG histories of length 200 and burst histories (backlogs of 70..4200 (thorough 20000) items built, drained through both ends, rebuilt and drained again, with empty-queue probes); " +
 					"each executed against the real LinkedListQueue (through the Queue, Stack and concrete views) and an ideal slice deque in lock-step, followed by an alternating-ends drain. distinct_nontrivial counts histories that performed both a head removal and a tail removal on a non-empty deque",
 				Assumptions: []string{"values are unique ints; node-pool operations are no-ops of the ideal deque",
 					"single goroutine (the property is about histories, not schedules)"},
@@ -271,6 +286,64 @@ func runC06(c *core.Ctx) {
 			c.Violation(key, what, map[string]any{"alphabet": "full", "history": dqHistoryString(dqFull, seqs[i])})
 		}
 	})
+	// burst histories: a backlog far beyond any node-pool bound is built, drained, rebuilt and drained again (through
+	// both ends), with empty-queue probes in between - free-list / node-recycling paths only show at this scale
+	bursts := [][2]int{{70, 3}, {300, 2}, {1030, 2}, {1100, 3}, {2100, 2}, {4200, 2}}
+	if c.Thorough() {
+		bursts = append(bursts, [2]int{9000, 3}, [2]int{20000, 2}, [2]int{1025, 6}, [2]int{1024, 4}, [2]int{513, 5})
+	}
+	var burstSeqs [][]int
+	for bi, b := range bursts {
+		for variant := 0; variant < 4; variant++ {
+			var s []int
+			for round := 0; round < b[1]; round++ {
+				for k := 0; k < b[0]; k++ {
+					if variant%2 == 1 && k%7 == 3 {
+						s = append(s, 3) // Unshift
+					} else {
+						s = append(s, k%3) // Offer / Push / Put
+					}
+				}
+				if round%2 == 1 && variant >= 2 {
+					s = append(s, 12) // KeepNodePoolCount(1) between the rounds
+				}
+				for k := 0; k < b[0]; k++ {
+					if variant >= 2 && k%5 == 0 {
+						s = append(s, 7) // Pop
+					} else {
+						s = append(s, 4+k%3) // Poll / Take / Shift
+					}
+				}
+				s = append(s, 8, 4, 7, 9, 8) // Peek, Poll, Pop, Count, Peek on the empty queue
+			}
+			burstSeqs = append(burstSeqs, s)
+			_ = bi
+		}
+	}
+	// sequentially and with the garbage collector paused: nodes parked in the queue's sync.Pool survive only until
+	// the next GC cycle, so a recycling defect that goes through that pool needs a GC-quiet history to show
+	oldGC := debug.SetGCPercent(-1)
+	defer debug.SetGCPercent(oldGC)
+	for i := range burstSeqs {
+		w := 0
+		hw.Begin(w, dqHang{dqFull, burstSeqs[i][:8]})
+		key, what, _ := runDequeHistory(dqFull, burstSeqs[i])
+		hw.End(w)
+		c.Distinct(fmt.Sprintf("burst-%d", i))
+		if key != "" {
+			if len(what) > 700 {
+				what = what[:300] + " ... " + what[len(what)-380:]
+			}
+			c.Violation("burst:"+key, what, map[string]any{"alphabet": "full", "burst_history_index": i, "length": len(burstSeqs[i])})
+		}
+		if i%4 == 3 {
+			debug.SetGCPercent(oldGC)
+			runtime.GC()
+			debug.SetGCPercent(-1)
+		}
+	}
+	c.Eval(int64(len(burstSeqs)))
+	c.Count("histories.burst", int64(len(burstSeqs)))
 	c.Eval(int64(nr))
 	c.Count("histories.random.len200", int64(nr))
 	c.Count("histories.nontrivial.random", nontriv.Load())
